@@ -20,6 +20,8 @@ import RotoV.Generated.Precedence
 import RotoV.Model.LookAhead
 import RotoV.Generated.LookAhead
 import RotoV.Generated.C09FStrText
+import RotoV.Model.IdentScan
+import RotoV.Generated.C09IdentScan
 
 namespace Driver.C09
 open RotoV RotoV.Pratt RotoV.Literal RotoV.FString
@@ -134,8 +136,34 @@ partial def laSeq : LookAhead.T → String
   | _ => ""
 end
 
+/-- `identscan cp:flags,…` — the scan of `keyword_or_ident` on the GENERATED
+    character tests; the XID predicates are the table sent along (bit 0 =
+    `is_xid_start`, bit 1 = `is_xid_continue`, from the unicode-ident crate).
+    Answer: `none` or `some <byte length of the word>`. -/
+def identScanReq (spec : String) : String :=
+  let items := if spec == "-" then [] else spec.splitOn ","
+  let parsed : Option (List (Char × Nat)) := items.mapM (fun it =>
+    match it.splitOn ":" with
+    | [h, f] =>
+      (match h.toNat?, f.toNat? with
+       | some cp, some fl => some (Char.ofNat cp, fl)
+       | _, _ => none)
+    | _ => none)
+  match parsed with
+  | none => "bad-op"
+  | some tbl =>
+    let look (bit : Nat) (c : Char) : Bool :=
+      match tbl.find? (fun p => p.1 == c) with
+      | some (_, fl) => (fl / bit) % 2 == 1
+      | none => false
+    match RotoV.IdentScan.scanWith RotoV.Gen.C09IdentScan.identFirst RotoV.Gen.C09IdentScan.identRest
+        (look 1) (look 2) (tbl.map (·.1)) with
+    | none => "none"
+    | some (w, _) => s!"some {utf8Len w}"
+
 def handle (args : List String) : String :=
   match args with
+  | ["identscan", spec] => identScanReq spec
   | "la" :: mode :: syms =>
     match syms.mapM readSym with
     | none => "bad-op"
